@@ -374,9 +374,11 @@ def check_order_semantic(project: Project, rep) -> str:
         m = c.methods.get(mname)
         if m is None:
             continue
-        for n_dgm in (2, 3, 4, 5):
+        for n_dgm in (2, 3, 4, 5, 33, 67):      # 33, 67: more than one batch of any size up to 32, with a short last one
             for n_jobs in (NoneV(), Sc(sym.Num(2.0))):
                 if mname == "fit_transform" and (n_dgm > 3 or not isinstance(n_jobs, NoneV)):
+                    continue
+                if n_dgm > 5 and not isinstance(n_jobs, NoneV) and n_dgm != 33:
                     continue
                 names = [f"D{k}" for k in range(n_dgm)]
 
